@@ -177,6 +177,14 @@ pub fn generate(prop: &str, rng: &mut Rng, plan: &mut Plan, _index: u64) {
             _ => plan.knobs.faults.fdalloc = Some((1 + rng.below(4 * n as u64) as u32, libc::EMFILE)),
         }
         plan.knobs.batch = "faulty".into();
+        // cleaning up after the failure must not depend on signals getting through: the parent
+        // (and so every command) may run with SIGTERM ignored, and kill() may be refused
+        if rng.chance(1, 4) {
+            plan.parent.sigterm_ignored = true;
+        }
+        if rng.chance(1, 8) {
+            plan.knobs.faults.kill_fail = Some((1 + rng.below(2) as u32, libc::EPERM));
+        }
     }
     if rng.chance(1, 6) {
         // a signal handler of the application runs while the parent is blocked
@@ -236,7 +244,10 @@ fn build(pp: &PipePlan, cfg_in: Cfg, cfg_out: Cfg, cfg_err: Cfg) -> Pipeline {
     }
     let late = move |p: Pipeline| cfg_err(cfg_out(cfg_in(p)));
     late(match pp.shape {
-        Shape::Iter => Pipeline::from_exec_iter((0..n).map(mk)),
+        // `early` doubles as "lazy": an iterator that cannot tell its length in advance (what
+        // filter(), flat_map() or split() give) is as good a source of commands as a Vec
+        Shape::Iter if pp.early => Pipeline::from_exec_iter((0..n).filter(|_| true).map(mk)),
+        Shape::Iter => Pipeline::from_exec_iter((0..n).map(mk).collect::<Vec<_>>()),
         Shape::New => {
             let mut p = Pipeline::new(mk(0), mk(1));
             for i in 2..n {
@@ -352,7 +363,15 @@ pub fn run(plan: &Plan, pp: &PipePlan) -> FamOut {
         }
         cfg_err = Box::new(move |p| p.stderr_to(f));
     }
-    let p = build(pp, cfg_in, cfg_out, cfg_err);
+    // composing two or more commands, whichever way, is always valid: nothing to refuse here
+    let p = match std::panic::catch_unwind(std::panic::AssertUnwindSafe(|| build(pp, cfg_in, cfg_out, cfg_err))) {
+        Ok(p) => p,
+        Err(_) => {
+            let msg = crate::api::LAST_PANIC.with(|p| p.borrow_mut().take()).unwrap_or_default();
+            violate("panic", format!("panic/in=compose/shape={:?}", pp.shape), format!("composing a pipeline of {} commands ({:?}{}) panicked: {}", n, pp.shape, if pp.early { ", lazy/early" } else { "" }, msg));
+            return FamOut { nontrivial: false };
+        }
+    };
     // cloning yields an equivalent pipeline (File redirections are dup'ed: same open file description)
     let p = if pp.via_clone {
         let orig = p;
